@@ -1,4 +1,5 @@
 import Spydr.Names.Props.C17
+import Spydr.Names.Props.C17Export
 #print axioms Spydr.Names.makeValid_legal
 #print axioms Spydr.Names.makeValid_fresh
 #print axioms Spydr.Names.conflictsFix_finished
@@ -14,3 +15,12 @@ import Spydr.Names.Props.C17
 #print axioms Spydr.Names.pinned_violates_legal_length
 #print axioms Spydr.Names.pinned_violates_legal_suffix
 #print axioms Spydr.Names.unrepaired_violates_netIdents
+#print axioms Spydr.Names.Bridge.checkEdifIdentifier_eq
+#print axioms Spydr.Names.Bridge.fromPrepass_named_distinct
+#print axioms Spydr.Names.Bridge.wfNet_of_prepass
+#print axioms Spydr.Names.Bridge.prepass_file_readable
+#print axioms Spydr.Names.Bridge.bus_bit_identifier_can_be_too_long
+#print axioms Spydr.Names.Bridge.names_of_passNet
+#print axioms Spydr.Names.Bridge.view03_passNet
+#print axioms Spydr.Names.Bridge.export_readable
+#print axioms Spydr.Names.Bridge.passNet_naming_clauses
